@@ -12,6 +12,6 @@ bad = F.forbidden_scan()
 if bad:
     print("forbidden declarations:", bad); sys.exit(1)
 PY
-(cd coq && timeout 3000 make -j16 2>&1 | tail -5)
+(cd coq && timeout 5000 make -j16 -k 2>&1 | tail -5)
 python3 harness/build.py
 echo "setup done"
